@@ -94,6 +94,15 @@ pub fn all() -> Vec<PropDef> {
             exhaustive_per_sample: true,
         },
         PropDef {
+            id: "C14",
+            level: "fault_enumeration",
+            runs: crate::gen_c14::runs_c14,
+            run: crate::gen_c14::run_c14,
+            rule: "all 11 randomised call sites of gm-sm2 and gm-sm9 (SM2 keygen/sign/encrypt/exchange_1/exchange_2; SM9 sign- and enc-master keygen, sign, encrypt, exch_step_1a/1b) behind the RNG seam: (enumeration) each out-of-range candidate of the menu {0, order, order+1, order+2^64, 2^256-1, p-2, (order+p)/2} offered first at each site, double faults, in-range edge candidates, eight bad candidates in a row (draw budget); (M1) seeded runs of 3-8 calls with uniform scripts in one world; the scalar actually used is recovered from each call's output by the reference and must have been offered in that call, lie in [1, order-1] and be new; (M3, labelled non-replayable) the real generator observed through the seam: per-bit frequency against the exact uniform expectation at 8 sigma, duplicates, three fresh processes. A case is one randomised call (inputs, script) on which a C14 oracle was evaluated",
+            assumptions: &[REF_ASSUME, "M3 consumes operating-system randomness: its inputs cannot be replayed bit-for-bit; a replay re-runs the statistic (false-alarm probability < 1e-12 per run at 8 sigma)", "entropy is judged by per-bit frequency and repetition only; no claim of cryptographic unpredictability"],
+            exhaustive_per_sample: true,
+        },
+        PropDef {
             id: "C15",
             level: "fault_enumeration",
             runs: crate::gen_sm2kex::runs_c15,
